@@ -180,4 +180,19 @@ theorem C03_source_conflict_rule (u : Nat) (k : String) (v1 v2 : Option String) 
   have := vlt_irrefl v1
   grind
 
+/-- **the other documented rules, read off the source's function** -/
+theorem C03_source_other_rules (u : Nat) (k k2 : String) (v v2 : Option String) (ts ts2 : Int) :
+    -- a concurrent deletion wins over an update (either way round)
+    Src.transform (.delete u) (.update u k v ts) = (some (.delete u), none)
+    ∧ Src.transform (.update u k v ts) (.delete u) = (none, some (.delete u))
+    -- different properties: both kept
+    ∧ (k ≠ k2 → Src.transform (.update u k v ts) (.update u k2 v2 ts2)
+        = (some (.update u k v ts), some (.update u k2 v2 ts2)))
+    -- concurrent creations / deletions of the same task merge
+    ∧ Src.transform (.create u) (.create u) = (none, none)
+    ∧ Src.transform (.delete u) (.delete u) = (none, none) := by
+  simp only [src_transform_eq]
+  refine ⟨?_, ?_, ?_, ?_, ?_⟩ <;> simp [transform]
+  intro h1 h2; exact absurd h2 h1
+
 end Tc
